@@ -2367,15 +2367,17 @@ def match_sections(ds, matching_sections):
             + str(txs)
         )
 
-    hix = ds.dts.ufunc_per_section(
-        sections={0: [i[0] for i in matching_sections]},
-        x_indices=True,
-        calc_per="all",
-        suppress_section_validation=True,
-    )
-
+    hixl = []
     tixl = []
-    for _, tslice, reverse_flag in matching_sections:
+    for hslice, tslice, reverse_flag in matching_sections:
+        hixl.append(
+            ds.dts.ufunc_per_section(
+                sections={0: [hslice]},
+                x_indices=True,
+                calc_per="all",
+                suppress_section_validation=True,
+            )
+        )
         ixi = ds.dts.ufunc_per_section(
             sections={0: [tslice]},
             x_indices=True,
@@ -2388,6 +2390,7 @@ def match_sections(ds, matching_sections):
         else:
             tixl.append(ixi)
 
+    hix = np.concatenate(hixl)
     tix = np.concatenate(tixl)
 
     return np.stack((hix, tix)).T
